@@ -222,90 +222,87 @@ Local Hint Resolve grows_refl grows_ne : core.
 
 Section Params.
 Variable ev : str -> Qc.
-Variable env : str -> option Qc.      (* the current value of the variable parameter of each name *)
+(* the object each name denotes in the original value: the variable Parameter of that name with its current value, or the
+   Expression of that text with its sub-parameters (one object per name: Circuit.add / _set_parameter enforce it) *)
+Variable obj : str -> tobj.
+Notation cf := cfg_now.
 
-Definition wf_nv (nv : str * option Qc) : Prop := fst nv <> [] /\ snd nv = env (fst nv).
+Definition wf_nv (nv : str * option Qc) : Prop := fst nv <> [] /\ obj (fst nv) = TParam ([], fst nv, snd nv).
 Definition wf_param (p : param) : Prop :=
   match p with
   | PFix _ => True
   | PVar n v => wf_nv (n, v)
-  | PExpr e subs => all_defined subs = false /\ Forall wf_nv subs     (* an expression that still has a free parameter *)
+  | PExpr e subs => subs <> [] /\ obj e = TExpr [] e (map inj_obj subs) /\ Forall wf_nv subs   (* values or not *)
   end.
-Definition table_ok (k : table) : Prop := forall n o, lookup n k = Some o -> o = ([], n, env n).
+Definition table_ok (k : table) : Prop := forall n t, lookup n k = Some t -> t = obj n.
 
 Lemma table_ok_nil : table_ok []. Proof. intros n o. discriminate. Qed.
-Lemma table_ok_cons n k : table_ok k -> table_ok ((n, ([], n, env n)) :: k).
+Lemma table_ok_cons n k : table_ok k -> table_ok ((n, obj n) :: k).
 Proof. intros H n' o. simpl. destruct (str_eqb n' n) eqn:E. apply str_eqb_eq in E. subst. intros [= <-]. reflexivity. apply H. Qed.
 
 Lemma dec_leaf_var nv k : wf_nv nv -> table_ok k ->
-  exists k', dec_leaf [] (wl_type (enc_leaf nv)) (wl_name (enc_leaf nv)) k = Some (DVar (inj_obj nv), k')
-             /\ table_ok k' /\ k' <> [].
+  exists k', dec_leaf [] (wl_type (enc_leaf nv)) (wl_name (enc_leaf nv)) k = Some (DVar (inj_obj nv), k') /\ table_ok k'.
 Proof.
   destruct nv as [n v]. intros [Hn Hv] Hk. cbn [fst snd] in *. unfold enc_leaf, inj_obj. cbn [fst snd].
   destruct v as [v|]; cbn [wl_type wl_name dec_leaf].
   - rewrite truthy_ne by exact Hn. destruct (lookup n k) as [o|] eqn:E.
-    + rewrite (Hk _ _ E). rewrite <- Hv. rewrite Qc_eqb_refl. exists k. spl; auto. intros ->. discriminate.
-    + exists ((n, ([], n, Some v)) :: k). split; [reflexivity|split; [rewrite Hv; apply table_ok_cons; exact Hk|discriminate]].
+    + rewrite (Hk _ _ E), Hv. rewrite Qc_eqb_refl. exists k. split; auto.
+    + exists ((n, TParam ([], n, Some v)) :: k). split. reflexivity. rewrite <- Hv. apply table_ok_cons. exact Hk.
   - destruct (lookup n k) as [o|] eqn:E.
-    + rewrite (Hk _ _ E). rewrite <- Hv. exists k. spl; auto. intros ->. discriminate.
-    + exists ((n, ([], n, None)) :: k). split; [reflexivity|split; [rewrite Hv; apply table_ok_cons; exact Hk|discriminate]].
+    + rewrite (Hk _ _ E), Hv. exists k. split; auto.
+    + exists ((n, TParam ([], n, None)) :: k). split. reflexivity. rewrite <- Hv. apply table_ok_cons. exact Hk.
 Qed.
 Lemma dec_subs_ok subs : forall k, Forall wf_nv subs -> table_ok k ->
-  exists k', dec_subs [] (map enc_leaf subs) k = Some (map inj_obj subs, k') /\ table_ok k' /\ grows k k' /\ (subs <> [] -> k' <> []).
+  exists k', dec_subs [] (map enc_leaf subs) k = Some (map inj_obj subs, k') /\ table_ok k'.
 Proof.
-  induction subs as [|nv r IH]; intros k Hs Hk. exists k. spl; auto; try reflexivity; try discriminate; try (intros; congruence).
-  inversion Hs as [|? ? Hnv Hr]; subst. destruct (dec_leaf_var nv k Hnv Hk) as (k1 & E1 & T1 & N1).
-  destruct (IH k1 Hr T1) as (k2 & E2 & T2 & G2 & _).
-  exists k2. cbn [map dec_subs]. rewrite E1, E2. split. reflexivity. split. exact T2. split. intros _. apply G2. exact N1.
-  intros _. apply G2. exact N1.
+  induction subs as [|nv r IH]; intros k Hs Hk. exists k. split; auto.
+  inversion Hs as [|? ? Hnv Hr]; subst. destruct (dec_leaf_var nv k Hnv Hk) as (k1 & E1 & T1).
+  destruct (IH k1 Hr T1) as (k2 & E2 & T2). exists k2. cbn [map dec_subs]. rewrite E1, E2. split; auto.
 Qed.
 
-Lemma dec_param_fix sc p k : pvar_b p = false -> dec_param sc (enc_param ev p) k = Some (inj_param p, k).
+Lemma dec_param_fix sc p k : pvar_b p = false -> dec_param cf sc (enc_param cf ev p) k = Some (inj_param p, k).
 Proof. destruct p; try discriminate. reflexivity. Qed.
 Lemma dec_param_ok p k : wf_param p -> table_ok k ->
-  exists k', dec_param [] (enc_param ev p) k = Some (inj_param p, k') /\ table_ok k' /\ grows k k'
-             /\ (pvar_b p = true -> k' <> []) /\ (pvar_b p = false -> k' = k).
+  exists k', dec_param cf [] (enc_param cf ev p) k = Some (inj_param p, k') /\ table_ok k' /\ (pvar_b p = false -> k' = k).
 Proof.
   intros Hp Hk. destruct p as [v|n v|e subs].
-  - exists k. split. reflexivity. split. exact Hk. split. intros H; exact H. split. discriminate. reflexivity.
-  - destruct (dec_leaf_var (n, v) k Hp Hk) as (k' & E & T & N). exists k'.
-    unfold enc_param, dec_param. cbn [wp_type wp_subs wp_name]. 
+  - exists k. split. reflexivity. split. exact Hk. reflexivity.
+  - destruct (dec_leaf_var (n, v) k Hp Hk) as (k' & E & T). exists k'.
+    unfold enc_param, dec_param. cbn [wp_type wp_subs wp_name].
     assert (G : dec_leaf [] (wl_type (enc_leaf (n, v))) (wl_name (enc_leaf (n, v))) k = Some (inj_param (PVar n v), k')) by exact E.
-    destruct (wl_type (enc_leaf (n, v))) eqn:Et; (split; [exact G|]); spl; auto; try discriminate; intros _; auto.
-  - destruct Hp as [Hd Hs]. destruct subs as [|s r]. discriminate.
-    destruct (dec_subs_ok (s :: r) k Hs Hk) as (k' & E & T & G & N). exists k'.
-    unfold enc_param. rewrite Hd. unfold dec_param. cbn [wp_type wp_subs wp_name map]. cbn [map] in E. rewrite E.
-    spl; auto. intros _. apply N. discriminate. discriminate.
+    destruct (wl_type (enc_leaf (n, v))) eqn:Et; (split; [exact G|]); split; auto; discriminate.
+  - destruct Hp as (Hne & Ho & Hs). destruct subs as [|s r]. congruence.
+    unfold enc_param. cbn [fix_expr_defined cf negb andb]. unfold dec_param. cbn [wp_type wp_subs wp_name map fix_expr_shared cf].
+    destruct (lookup e k) as [t|] eqn:El.
+    + rewrite (Hk _ _ El), Ho. exists k. split. reflexivity. split. exact Hk. discriminate.
+    + destruct (dec_subs_ok (s :: r) k Hs Hk) as (k' & E & T). cbn [map] in E. rewrite E.
+      exists ((e, TExpr [] e (inj_obj s :: map inj_obj r)) :: k'). split. reflexivity. split.
+      change (inj_obj s :: map inj_obj r) with (map inj_obj (s :: r)). rewrite <- Ho. apply table_ok_cons. exact T. discriminate.
 Qed.
 
 Lemma dec_params_fix sc ps : forall k, existsb pvar_b ps = false ->
-  dec_params sc (map (enc_param ev) ps) k = Some (map inj_param ps, k).
+  dec_params cf sc (map (enc_param cf ev) ps) k = Some (map inj_param ps, k).
 Proof. induction ps as [|p r IH]; intros k H. reflexivity. cbn [existsb] in H. apply orb_false_iff in H. destruct H as [H1 H2].
   cbn [map dec_params]. rewrite dec_param_fix by exact H1. rewrite IH by exact H2. reflexivity. Qed.
 Lemma dec_params_ok ps : forall k, Forall wf_param ps -> table_ok k ->
-  exists k', dec_params [] (map (enc_param ev) ps) k = Some (map inj_param ps, k') /\ table_ok k' /\ grows k k'
-             /\ (existsb pvar_b ps = true -> k' <> []) /\ (existsb pvar_b ps = false -> k' = k).
+  exists k', dec_params cf [] (map (enc_param cf ev) ps) k = Some (map inj_param ps, k') /\ table_ok k'
+             /\ (existsb pvar_b ps = false -> k' = k).
 Proof.
-  induction ps as [|p r IH]; intros k Hs Hk. exists k. spl; auto; try reflexivity; try discriminate.
-  inversion Hs as [|? ? Hp Hr]; subst. destruct (dec_param_ok p k Hp Hk) as (k1 & E1 & T1 & G1 & V1 & F1).
-  destruct (IH k1 Hr T1) as (k2 & E2 & T2 & G2 & V2 & F2). exists k2. cbn [map dec_params existsb]. rewrite E1, E2.
-  spl; auto.
-  - intros H. apply G2. apply G1. exact H.
-  - intros H. apply orb_true_iff in H. destruct H as [H|H]. apply G2. apply V1. exact H. apply V2. exact H.
-  - intros H. apply orb_false_iff in H. destruct H as [H1 H2]. rewrite F2, F1; auto.
+  induction ps as [|p r IH]; intros k Hs Hk. exists k. split; auto.
+  inversion Hs as [|? ? Hp Hr]; subst. destruct (dec_param_ok p k Hp Hk) as (k1 & E1 & T1 & F1).
+  destruct (IH k1 Hr T1) as (k2 & E2 & T2 & F2). exists k2. cbn [map dec_params existsb]. rewrite E1, E2.
+  split. reflexivity. split. exact T2. intros H. apply orb_false_iff in H. destruct H as [H1 H2]. rewrite F2, F1; auto.
 Qed.
 
-Lemma inj_param_not_none p : match inj_param p with DNone => DFix 0 | d => d end = inj_param p.
-Proof. destruct p; reflexivity. Qed.
 Lemma wkind_idem k : wkind (wkind k) = wkind k.
 Proof. destruct k; try reflexivity. simpl. f_equal. unfold conv_code. destruct (conv =? 2) eqn:A. reflexivity.
   destruct (conv =? 1) eqn:B; reflexivity. Qed.
 
-Lemma dec_me_unset sc me k : param_truthy me = false -> dec_param sc wp_unset k = Some (DNone, k) /\ inj_param me = DFix 0.
+Lemma dec_me_unset sc me k : param_truthy me = false -> dec_param cf sc wp_unset k = Some (DNone, k) /\ inj_param me = DFix 0.
 Proof. destruct me; try discriminate. simpl. intros H. apply negb_false_iff in H. apply Qc_eqb_eq in H. subst. split; reflexivity. Qed.
 
 Lemma dec_kind_fix sc kd ps k : length ps = arity kd -> existsb pvar_b ps = false ->
-  dec_kind sc (wkind kd) (enc_kind ev kd ps) k = Some (map inj_param ps, k).
+  dec_kind cf sc (wkind kd) (enc_kind cf ev kd ps) k = Some (map inj_param ps, k).
 Proof.
   intros Ha Hf. destruct kd; try (cbn [wkind enc_kind dec_kind]; apply dec_params_fix; exact Hf).
   destruct ps as [|phi [|me [|]]]; try discriminate. cbn [existsb] in Hf. apply orb_false_iff in Hf. destruct Hf as [H1 H2].
@@ -315,22 +312,28 @@ Proof.
   - cbn [map]. destruct (dec_me_unset sc me k Et) as [-> ->]. rewrite (dec_param_fix sc phi k H1). reflexivity.
 Qed.
 Lemma dec_kind_ok kd ps k : length ps = arity kd -> Forall wf_param ps -> table_ok k ->
-  exists k', dec_kind [] (wkind kd) (enc_kind ev kd ps) k = Some (map inj_param ps, k') /\ table_ok k' /\ grows k k'
-             /\ (existsb pvar_b ps = true -> k' <> []) /\ (existsb pvar_b ps = false -> k' = k).
+  exists k', dec_kind cf [] (wkind kd) (enc_kind cf ev kd ps) k = Some (map inj_param ps, k') /\ table_ok k'
+             /\ (existsb pvar_b ps = false -> k' = k).
 Proof.
   intros Ha Hs Hk. destruct kd; try (cbn [wkind enc_kind dec_kind]; apply dec_params_ok; assumption).
   destruct ps as [|phi [|me [|]]]; try discriminate. inversion Hs as [|? ? Hphi Hs']; subst. inversion Hs' as [|? ? Hme _]; subst.
   cbn [wkind enc_kind dec_kind]. destruct (param_truthy me) eqn:Et.
-  - destruct (dec_param_ok me k Hme Hk) as (k1 & E1 & T1 & G1 & V1 & F1).
-    destruct (dec_param_ok phi k1 Hphi T1) as (k2 & E2 & T2 & G2 & V2 & F2). exists k2. rewrite E1, E2.
-    cbn [existsb map]. rewrite orb_false_r. split. destruct me; reflexivity. split. exact T2. split. intros H. apply G2, G1, H. split.
-    + intros H. apply orb_true_iff in H. destruct H as [H|H]. auto. apply G2. auto.
-    + intros H. apply orb_false_iff in H. destruct H as [H1 H2]. rewrite F2, F1; auto.
+  - destruct (dec_param_ok me k Hme Hk) as (k1 & E1 & T1 & F1).
+    destruct (dec_param_ok phi k1 Hphi T1) as (k2 & E2 & T2 & F2). exists k2. rewrite E1, E2.
+    cbn [existsb map]. rewrite orb_false_r. split. destruct me; reflexivity. split. exact T2.
+    intros H. apply orb_false_iff in H. destruct H as [H1 H2]. rewrite F2, F1; auto.
   - destruct (dec_me_unset [] me k Et) as [E0 I0]. rewrite E0.
-    destruct (dec_param_ok phi k Hphi Hk) as (k2 & E2 & T2 & G2 & V2 & F2). exists k2. rewrite E2. cbn [map]. rewrite I0.
-    assert (pvar_b me = false) by (destruct me; try discriminate; reflexivity).
-    cbn [existsb]. rewrite H. rewrite !orb_false_r. split. reflexivity. split. exact T2. split. exact G2. split; assumption.
+    destruct (dec_param_ok phi k Hphi Hk) as (k2 & E2 & T2 & F2). exists k2. rewrite E2. cbn [map]. rewrite I0.
+    cbn [existsb]. split. reflexivity. split. exact T2. intros H. apply orb_false_iff in H. apply F2. tauto.
 Qed.
+
+(* a repeated expression is one object: the component constructor's name check passes *)
+Lemma expr_ids_root ps x : In x (expr_ids (map inj_param ps)) -> fst x = [].
+Proof. unfold expr_ids. intros H. apply in_flat_map in H. destruct H as (d & Hd & Hx). apply in_map_iff in Hd.
+  destruct Hd as (p & <- & _). destruct p; cbn in Hx; try tauto. destruct Hx as [<-|[]]. reflexivity. Qed.
+Lemma exprs_ok_inj ps : exprs_ok cf (map inj_param ps) = true.
+Proof. unfold exprs_ok. cbn [fix_expr_shared cf]. apply forallb_forall. intros x Hx. apply forallb_forall. intros y Hy.
+  destruct (str_eqb (snd x) (snd y)); auto. rewrite (expr_ids_root ps x Hx), (expr_ids_root ps y Hy). reflexivity. Qed.
 End Params.
 
 (* ------------------------------------------------------------------ components and circuits, any nesting depth *)
@@ -353,15 +356,15 @@ Definition is_sub (c : comp) : bool := match c with CSub _ _ _ => true | _ => fa
 
 Section Comps.
 Variable ev : str -> Qc.
-Variable env : str -> option Qc.
+Variable env : str -> tobj.      (* the object each name denotes (see [wf_param]) *)
 Notation cf := cfg_now.
 
-(* well-formed components: arities, consistent parameter values (every use of a name sees the one object of that name),
-   an Expression object is not used twice inside one component, a polarised Unitary has an even number of rows,
+(* well-formed components: arities, every use of a name sees the one object of that name (parameters with or without a
+   value, expressions over them, used any number of times), a polarised Unitary has an even number of rows,
    every item of a circuit is unitary and fits; names are non-empty *)
 Fixpoint wf_comp (c : comp) : Prop :=
   match c with
-  | CLeaf k ps => length ps = arity k /\ Forall (wf_param env) ps /\ nodupb (expr_names (map inj_param ps)) = true
+  | CLeaf k ps => length ps = arity k /\ Forall (wf_param env) ps
   | CUnit u n pol => n <> [] /\ rect u /\ (pol = true -> Z.even (len u) = true)
   | CSub n m items => n <> [] /\
       (fix all (l : list (Z * comp)) : Prop :=
@@ -462,11 +465,11 @@ Qed.
 Lemma St_all c : St c.
 Proof.
   induction c as [kd ps|p|u n pol| |m v|n m items IH] using comp_ind'; intros Hw path sc start k Hk Hv.
-  - destruct Hw as (Ha & Hps & Hnd). cbn [enc_comp dec_comp inj has_var] in *.
+  - destruct Hw as (Ha & Hps). cbn [enc_comp dec_comp inj has_var] in *.
     destruct (existsb pvar_b ps) eqn:Ev.
-    + rewrite (Hv eq_refl). destruct (dec_kind_ok ev env kd ps k Ha Hps Hk) as (k' & E & T & G & V & F).
-      exists k'. rewrite E, Hnd, wkind_idem. spl; auto. discriminate.
-    + exists k. rewrite (dec_kind_fix ev sc kd ps k Ha Ev), Hnd, wkind_idem. spl; auto.
+    + rewrite (Hv eq_refl). destruct (dec_kind_ok ev env kd ps k Ha Hps Hk) as (k' & E & T & F).
+      exists k'. rewrite E, (exprs_ok_inj ev env ps), wkind_idem. spl; auto. discriminate.
+    + exists k. rewrite (dec_kind_fix ev sc kd ps k Ha Ev), (exprs_ok_inj ev env ps), wkind_idem. spl; auto.
   - exists k. cbn. spl; auto.
   - destruct Hw as (Hn & Hr & Hev). exists k. cbn [enc_comp dec_comp]. rewrite dec_enc_mat_num by exact Hr.
     cbn [fix_unitary cf].
@@ -542,7 +545,7 @@ Proof. induction 1 as [|[m p] l Hp Hl IH]. reflexivity. cbn [map fst snd]. cbn [
 
 Section Exp.
 Variable ev : str -> Qc.
-Variable env : str -> option Qc.
+Variable env : str -> tobj.      (* the object each name denotes (see [wf_param]) *)
 
 Record wf_exp (e : experiment) : Prop := mk_wf_exp {
   wx_name : e_name e <> [];
@@ -589,7 +592,7 @@ Proof.
     - destruct Hinput as [H|H]. rewrite H. reflexivity. destruct (bs_pol b). reflexivity. rewrite H, Z.eqb_refl. reflexivity.
     - rewrite sv_sizes_enc, Hinput. reflexivity. }
   rewrite EI. rewrite (dec_enc_dets (e_dets e) n Hdl Hdets).
-  destruct (items_ok ev env (e_comps e)) with (path := @nil nat) (sc' := @nil nat) (pos := 0%nat) (k := @nil (str * pobj))
+  destruct (items_ok ev env (e_comps e)) with (path := @nil nat) (sc' := @nil nat) (pos := 0%nat) (k := @nil (str * tobj))
     as (k' & E & T & F); auto.
   { apply Forall_forall. intros oc _. apply St_all. }
   { apply table_ok_nil. }
@@ -629,7 +632,7 @@ Qed.
 
 Section Val.
 Variable ev : str -> Qc.
-Variable env : str -> option Qc.
+Variable env : str -> tobj.      (* the object each name denotes (see [wf_param]) *)
 
 (* what a round trip returns: the value itself, with text numbers on the 1e-6 grid *)
 Fixpoint exp_value (v : value) : dvalue :=
@@ -743,18 +746,10 @@ Definition zero : qi := mkqi 0 0.
 Definition ps_a : comp := CLeaf KPS [PVar [97] None; PFix 0].
 
 (* --- still true of the current code ([cfg_now]) *)
-Theorem defined_expression_refuted : exists e a v,
-  roundtrip cfg_now ev0 CDefault (VCircuit (CLeaf KPS [PExpr e [(a, Some v)]; PFix 0]))
-  = Some (DVCircuit (DSub CPLX 1 [(0, DLeaf KPS [DVar ([], e, Some (ev0 e)); DFix 0])])).
-Proof. exists [50; 42; 97], [97], (q 1 2). vm_compute. reflexivity. Qed.
 Theorem one_sided_herald_refuted : exists e d, e_out e = [(1, AHerald 1 (Some [104]))] /\ e_in e = [] /\
   roundtrip cfg_now ev0 CDefault (VExperiment e) = Some (DVExperiment d) /\ de_out d = [].
 Proof. eexists (mkexp [69] 2 0 None None None None [] [(1, AHerald 1 (Some [104]))] [None; None] [] []), _.
   split. reflexivity. split. reflexivity. split. vm_compute. reflexivity. reflexivity. Qed.
-Theorem same_expression_twice_refuted : exists e a,
-  roundtrip cfg_now ev0 CDefault (VCircuit (CLeaf (KBS 0) [PExpr e [(a, None)]; PExpr e [(a, None)]; PFix 0; PFix 0; PFix 0])) = None.
-Proof. exists [50; 42; 98], [98]. vm_compute. reflexivity. Qed.
-
 (* two anonymous heralds added out of mode order: herald0 on mode 3, herald1 on mode 1 before; swapped after *)
 Definition exp_h2 : experiment :=
   mkexp [69] 2 2 None None None None [(3, AHerald 0 None); (1, AHerald 1 None)] [(3, AHerald 0 None); (1, AHerald 1 None)]
@@ -764,6 +759,23 @@ Theorem anonymous_herald_names_refuted : exists d,
   e_hnum exp_h2 = [(3, 0); (1, 1)] /\ de_hnum d = [(3, 1); (1, 0)] /\ de_in d = e_in exp_h2.
 Proof. eexists. split. vm_compute. reflexivity. repeat split. Qed.
 (* ... while heralds added in mode order keep their names: [wx_hnum] in [dec_enc_exp] *)
+
+(* --- expressions: before a50865fb / da9c4799 and now *)
+Definition ps_defined_expr : comp := CLeaf KPS [PExpr [50; 42; 97] [([97], Some (q 1 2))]; PFix 0].
+Theorem defined_expression_refuted_old_code :
+  roundtrip cfg_old ev0 CDefault (VCircuit ps_defined_expr)
+  = Some (DVCircuit (DSub CPLX 1 [(0, DLeaf KPS [DVar ([], [50; 42; 97], Some (ev0 [50; 42; 97])); DFix 0])])).
+Proof. vm_compute. reflexivity. Qed.
+Theorem defined_expression_now :
+  roundtrip cfg_now ev0 CDefault (VCircuit ps_defined_expr) = Some (DVCircuit (inj (wrap ps_defined_expr))).
+Proof. vm_compute. reflexivity. Qed.
+Definition bs_expr_twice : comp :=
+  CLeaf (KBS 0) [PExpr [50; 42; 98] [([98], None)]; PExpr [50; 42; 98] [([98], None)]; PFix 0; PFix 0; PFix 0].
+Theorem same_expression_twice_refuted_old_code : roundtrip cfg_old ev0 CDefault (VCircuit bs_expr_twice) = None.
+Proof. vm_compute. reflexivity. Qed.
+Theorem same_expression_twice_now :
+  roundtrip cfg_now ev0 CDefault (VCircuit bs_expr_twice) = Some (DVCircuit (inj (wrap bs_expr_twice))).
+Proof. vm_compute. reflexivity. Qed.
 
 (* --- statements about the code BEFORE the repairs ([cfg_old]); the same inputs now round-trip (see the _now lemmas) *)
 Definition exp_f0 : experiment := mkexp [69] 2 0 None None (Some 0) None [] [] [None; None] [] [].
